@@ -20,7 +20,7 @@ WORDS = {'tsan', 'ramem'}
 GEN = ['MemOrder']
 LEAN_TARGETS = ['OtelVerif.Props.C11Mem']
 THEOREMS = ['Otel.C11Mem.' + t for t in (
-    'gen_orders_sufficient',
+    'gen_orders_sufficient', 'gen_spin_orders_sufficient', 'gen_slot_orders_sufficient', 'gen_headtail_orders_sufficient',
     # (a) spin-lock client on release/acquire memory
     'spin_no_data_race', 'spin_mutual_exclusion', 'spin_holder_view_current', 'spin_cell_sequential', 'spin_no_lost_update',
     'spin_reads_previous_write', 'spin_gen_race_free',
@@ -48,7 +48,7 @@ RULE = ('weak memory: (tsan) the unmodified spin_lock_mutex.h / atomic_unique_pt
         'release/acquire model - schedule and read choices on the line, generated orders and random weaker ones - compared '
         'with an independent Python reference; with the generated orders no execution may flag a race. non-trivial = a '
         'tsan case with at least two threads that completed, or a model execution in which at least two threads stepped')
-LEVEL_TEXT_ADD = (' Weak memory (Props/C11Mem.lean, 43 theorems): on a view-based release/acquire memory (Model/RelAcq.lean: per '
+LEVEL_TEXT_ADD = (' Weak memory (Props/C11Mem.lean, 46 theorems): on a view-based release/acquire memory (Model/RelAcq.lean: per '
                   'location a message list, per thread a view, loads may read stale messages, RMWs read the latest, plain '
                   'locations with a data-race flag) and for EVERY interleaving, EVERY read choice, any number of threads: the '
                   'spin-lock client (relaxed test load, exchange, plain read+write of a shared cell, unlocking store) never '
